@@ -69,13 +69,14 @@ def run_batch(g, tier, name, runs, out, acc, cfg_text=None, decode=None, module=
                     acc["dis_samples"].append(dict(tokens=r["tokens"], role=r["cfg"].get("role"), ver=r["cfg"].get("ver"),
                                                    model=r["model_bad"], real=real_m))
         if v and len(acc["viols"]) < 5000:
+            allwhys = [x["why"] for x in allby.get(r["run"], [])]
             acc["viols"].append(dict(why=real, cfg=r["cfg"], cmds=r["cmds"], src=r.get("src", "random"),
-                                     tokens=r.get("tokens")))
+                                     tokens=r.get("tokens"), allwhys=allwhys))
             # further, different violations of the same run (reported under their own property unless
             # the primary one is a listed known finding: what follows a known defect is not trusted)
             for x in allby.get(r["run"], [])[1:]:
                 acc["viols"].append(dict(why=x["why"], cfg=r["cfg"], cmds=r["cmds"], src=r.get("src", "random"),
-                                         tokens=r.get("tokens"), primary=real))
+                                         tokens=r.get("tokens"), primary=real, allwhys=allwhys))
     step = max(1, len(runs) // 2)
     for r in runs[::step][:2]:
         if len(acc["samples"]) < 8:
@@ -209,6 +210,18 @@ def report(prop, g, tier, seed, res, wall):
             pv = dict(v, why=v["primary"])
             if vlib.match_known(known, v["primary"].split(":")[0], g["signature"](pv)):
                 continue
+        # a run in which a listed known defect shows anywhere is not trusted for anything else: its consequences
+        # can surface before the defect itself becomes observable (an acknowledgement waiting in the response queue)
+        tainted = None
+        for w in v.get("allwhys", []):
+            if w != v["why"]:
+                k2 = vlib.match_known(known, w.split(":")[0], g["signature"](dict(v, why=w)))
+                if k2:
+                    tainted = k2
+                    break
+        if tainted and not vlib.match_known(known, v["why"].split(":")[0], g["signature"](v)):
+            seen_known[tainted["signature"]] = (tainted, seen_known.get(tainted["signature"], (tainted, 0))[1] + 1)
+            continue
         sig = g["signature"](v)
         k = vlib.match_known(known, v["why"].split(":")[0], sig)
         if k:
